@@ -1,4 +1,5 @@
 import Vflow.Proofs.RoundIpfix
+import Vflow.Proofs.HeaderLayouts
 /-!
 # C03 — IPFIX: data records are decoded exactly as their templates describe
 
@@ -155,5 +156,42 @@ theorem k2_counterexample :
       .ok (Wire.Ipfix.expectedHdr k2Msg, (Wire.Ipfix.expected exAddr [] k2Msg).1.take 2, []) ∧
     (Wire.Ipfix.encodeRecord k2Tpl [⟨[10,0,0,3], false⟩]).length = 4 := by
   refine ⟨by rfl, by rfl, by rfl⟩
+
+/-! ## Tie: the fixed-layout readers of the model read the layouts REGENERATED from the decoder source
+(`Gen.Layouts.*`, re-extracted from the `unmarshal` chains on every run; proofs in `Proofs/HeaderLayouts.lean`) -/
+theorem gen_header_layout (r : Rd) : Ipfix.readHeader r = V5.readFields (V5.widths Gen.Layouts.ipfixHeader) r :=
+  HeaderLayouts.ipfix_header r
+theorem gen_setHeader_layout (addr : Bytes) (fuel : Nat) (st : Ipfix.St) (sid len : Nat) (r2 : Rd)
+    (h : V5.readFields (V5.widths Gen.Layouts.ipfixSetHeader) st.r = some ([sid, len], r2)) :
+    Ipfix.decodeSet addr fuel st =
+      if len < 4 then ({ st with r := r2 }, some .badSetLen)
+      else Ipfix.setBody addr sid len st.r.cnt fuel { st with r := r2 } :=
+  HeaderLayouts.ipfix_setHeader_read addr fuel st sid len r2 h
+theorem gen_setHeader_short (addr : Bytes) (fuel : Nat) (st : Ipfix.St)
+    (h : V5.readFields (V5.widths Gen.Layouts.ipfixSetHeader) st.r = none) :
+    (Ipfix.decodeSet addr fuel st).2 = some .short := HeaderLayouts.ipfix_setHeader_short addr fuel st h
+theorem gen_tplHeader_layout (r : Rd) (tid n : Nat) (r2 : Rd)
+    (h : V5.readFields (V5.widths Gen.Layouts.ipfixTplHeader) r = some ([tid, n], r2)) :
+    Ipfix.parseTpl r = (match Ipfix.readSpecs n r2 [] with
+      | (.ok fs, r3) => (.ok ⟨tid, n, 0, [], fs⟩, r3)
+      | (.error e, r3) => (.error e, r3)) := HeaderLayouts.ipfix_tplHeader_read r tid n r2 h
+theorem gen_tplHeader_short (r : Rd) (h : V5.readFields (V5.widths Gen.Layouts.ipfixTplHeader) r = none) :
+    (Ipfix.parseTpl r).1 = .error .short := HeaderLayouts.ipfix_tplHeader_short r h
+theorem gen_optTplHeader_short (r : Rd) (h : V5.readFields (V5.widths Gen.Layouts.ipfixOptTplHeader) r = none) :
+    (Ipfix.parseOptTpl r).1 = .error .short := HeaderLayouts.ipfix_optTplHeader_short r h
+theorem gen_layout_field_names :
+    Gen.Layouts.ipfixHeader.map (·.1) = ["Version", "Length", "ExportTime", "SequenceNo", "DomainID"] ∧
+    Gen.Layouts.ipfixSetHeader.map (·.1) = ["SetID", "Length"] ∧
+    Gen.Layouts.ipfixTplHeader.map (·.1) = ["TemplateID", "FieldCount"] ∧
+    Gen.Layouts.ipfixOptTplHeader.map (·.1) = ["TemplateID", "FieldCount", "ScopeFieldCount"] := by decide
+theorem gen_optTplHeader_layout (r : Rd) (tid n sc : Nat) (r3 : Rd)
+    (h : V5.readFields (V5.widths Gen.Layouts.ipfixOptTplHeader) r = some ([tid, n, sc], r3)) :
+    Ipfix.parseOptTpl r =
+      (match Ipfix.readSpecs sc r3 [] with
+       | (.error e, r4) => (.error e, r4)
+       | (.ok scs, r4) =>
+         match Ipfix.readSpecs ((n + 65536 - sc) % 65536) r4 [] with
+         | (.error e, r5) => (.error e, r5)
+         | (.ok fs, r5) => (.ok ⟨tid, n, sc, scs, fs⟩, r5)) := HeaderLayouts.ipfix_optTplHeader_read r tid n sc r3 h
 
 end Vflow.C03
